@@ -622,3 +622,82 @@ def boundinf(repo):
             res.samples.append(f"{f.name}: constant result only for finite bounds")
     res.analysed = [m.rel]
     return res
+
+
+INFGUARD_REVIEWED = {
+    ("_integer_bounds_errors_for_expression", "clause.type.integer"):
+        "the expression itself passed _integer_bounds_errors a few lines above (errors -> return) and every argument passed "
+        "it in the recursive call at the top of the function (errors -> return): all clauses are bounded here",
+}
+
+
+def infguard(repo):
+    """R-INFGUARD (C16): the bounds of an IntegerType are strings and may be "infinity"/"-infinity" (an integer of width 0,
+    an unbounded expression).  constraints.py runs before (and is) the gate that rejects unbounded integers, so there
+    `int(<b>.minimum_value)` / `int(<b>.maximum_value)` must be dominated by a test of the same bounds against the
+    infinity strings: an enclosing `if not (<b>.minimum_value == "-infinity" or ...)`, or an earlier `if <b>... ==
+    "infinity": return`.  Otherwise `struct Foo(n: UInt:0)` / `0 [+n] UInt:8 x` is ValueError: int('-infinity')."""
+    res = RuleResult("R-INFGUARD")
+    m = repo.mod("compiler/front_end/constraints.py")
+
+    def inf_bases(test):
+        """bases whose bounds are compared with an infinity string somewhere in test."""
+        out = set()
+        for c in ast.walk(test):
+            if isinstance(c, ast.Compare) and any(isinstance(k, ast.Constant) and k.value in ("infinity", "-infinity")
+                                                  for k in [c.left] + c.comparators):
+                for x in [c.left] + c.comparators:
+                    if isinstance(x, ast.Attribute) and x.attr in ("minimum_value", "maximum_value"):
+                        out.add(ast.unparse(x.value))
+        return out
+
+    for f in m.funcs.values():
+        aliases = {}
+        for n in walk_no_nested_funcs(f.node):
+            if isinstance(n, ast.Assign) and len(n.targets) == 1 and isinstance(n.targets[0], ast.Name) and isinstance(n.value, ast.Attribute):
+                aliases[n.targets[0].id] = ast.unparse(n.value)
+
+        def canon(b):
+            head = b.split(".")[0]
+            return aliases[head] + b[len(head):] if head in aliases else b
+
+        def scan(stmts, finite):
+            finite = set(finite)
+            for st in stmts:
+                if isinstance(st, (ast.If, ast.While)):
+                    check(st.test, finite)
+                    bases = {canon(b) for b in inf_bases(st.test)}
+                    negated = isinstance(st.test, ast.UnaryOp) and isinstance(st.test.op, ast.Not) or \
+                        (isinstance(st.test, ast.BoolOp) and isinstance(st.test.op, ast.And)
+                         and any(isinstance(v, ast.UnaryOp) and isinstance(v.op, ast.Not) and inf_bases(v) for v in st.test.values))
+                    scan(st.body, finite | (bases if negated else set()))
+                    scan(st.orelse, finite | (set() if negated else bases))
+                    if isinstance(st, ast.If) and not negated and st.body and isinstance(st.body[-1], (ast.Return, ast.Raise, ast.Continue)):
+                        finite |= bases
+                    continue
+                if isinstance(st, (ast.For, ast.With, ast.Try)):
+                    for blk in ("body", "orelse", "finalbody"):
+                        scan(getattr(st, blk, []) or [], finite)
+                    for h in getattr(st, "handlers", []):
+                        scan(h.body, finite)
+                    continue
+                if isinstance(st, (ast.FunctionDef, ast.ClassDef)):
+                    continue
+                check(st, finite)
+
+        def check(e, finite):
+            for c in ast.walk(e):
+                if isinstance(c, ast.Call) and isinstance(c.func, ast.Name) and c.func.id == "int" and len(c.args) == 1 \
+                        and isinstance(c.args[0], ast.Attribute) and c.args[0].attr in ("minimum_value", "maximum_value"):
+                    base = canon(ast.unparse(c.args[0].value))
+                    res.instances += 1
+                    if base in finite or (f.name, ast.unparse(c.args[0].value)) in INFGUARD_REVIEWED:
+                        continue
+                    res.add(f"{m.rel}|{f.qualname}|{ast.unparse(c.args[0])}", f"{f.qualname} converts `{ast.unparse(c.args[0])}` with int() "
+                            "without having excluded \"infinity\"/\"-infinity\": an unbounded value (a size read from a `UInt:0`) is a "
+                            "ValueError traceback instead of the 'must not be unbounded' diagnostic", m.rel, c.lineno, f.qualname)
+        scan(f.node.body, set())
+    if res.instances < 6 and not res.findings:
+        raise AnalysisError(f"constraints.py: only {res.instances} int(<bounds>) conversions found")
+    res.analysed = [m.rel]
+    return res
